@@ -130,14 +130,14 @@ fn main() {
          key's posting until it migrates) to depth 8/12 and start states in the legacy manifest-less layout; each candidate is \
          re-executed from scratch on a fresh real index (64-byte buckets); checked after the last op: return value / uniqueness \
          error vs model, light battery (len, is_empty, stats.num_elements, keys(None,None), query_with per key incl. absent keys, \
-         three full scans in both directions with and without early stop, one bounded page), then flush + load_all + the same \
+         three full scans and two top-level Include lists with a non-adjacent repeat, in both directions with and without early stop, one bounded page), then flush + load_all + the same \
          battery on the loaded index; dedup key = (model, committed model, public flags, canonical durable objects, canonical objects \
          written by the probe flush); distinct = distinct dedup keys other than the initial state | deep battery, once per distinct \
          model state on a re-executed representative history: keys(cursor, limit) for every cursor (incl. absent) x every limit, \
          prefix_query_with for 9 prefixes x every stop position (String keys), and every RangeQuery tree of the tier's battery \
-         (quick: all trees to depth 2 over 17 leaves, plus the 50 leaves of the thorough set; thorough: all trees to depth 2 over 50 leaves \
-         [Eq/Gt/Ge/Lt/Le over 7 constants, Between incl. inverted/point/absent, Include incl. empty/duplicate/unsorted] and all trees \
-         of depth 3 [Not, binary And, binary Or over every depth<=2 tree] over 8 leaves), each in both directions with the callback \
+         (quick: all trees to depth 2 over 21 leaves, plus the 54 leaves of the thorough set; thorough: all trees to depth 2 over 54 leaves \
+         [Eq/Gt/Ge/Lt/Le over 7 constants, Between incl. inverted/point/absent, Include incl. empty / adjacent repeat / non-adjacent repeat in unsorted order ([b,a,b], [c,a,b,a]) / unsorted] and all trees \
+         of depth 3 [Not, binary And, binary Or over every depth<=2 tree] over 9 leaves), each in both directions with the callback \
          stopping at every position",
     );
     run.assume("range/prefix query evaluation reads only the key set and the postings (code reading: range_query_inner/range_keys), so the tree battery is run once per distinct model state, not once per history");
